@@ -82,10 +82,17 @@ def cmp_for(func):
     return lambda a, b: (a > b) - (a < b)
 
 
+def samekey(case):
+    """Both parts of a two-key spec name the same attribute (with different
+    functions / directions)."""
+    return bool(case.get('samekey')) and len(case['types']) == 2 and \
+        case['types'][0] == case['types'][1]
+
+
 def spec_text(case):
     parts = []
     for j, (f, d) in enumerate(case['funcs']):
-        s = 'k%d' % j
+        s = 'k%d' % (0 if samekey(case) else j)
         if f:
             s += '/' + f
             if d:
@@ -101,7 +108,7 @@ def build(case):
         kw = {'i': i}
         row = []
         for j, t in enumerate(case['types']):
-            attr, kv = live_key(t, keys[j])
+            attr, kv = live_key(t, keys[0 if samekey(case) else j])
             if attr is not MISSING:
                 kw['k%d' % j] = attr
             row.append(kv)
@@ -111,7 +118,7 @@ def build(case):
 
 
 def source(case, reverse=None, batch='case'):
-    a = ['s']
+    a = [{'expr': '"s"', 'expr=': 'expr="s"'}.get(case.get('seq'), 's')]
     if case['mapping']:
         a.append('mapping')
     if case['via'] == 'sort_expr':
@@ -137,13 +144,15 @@ def render(case, **kw):
     orig = list(els)
     snap = [dict(e) if case['mapping'] else dict(e.__dict__) for e in els]
     t = HTML(source(case, **kw))
-    if case.get('prev'):
-        # the same compiled template was used before with another spec
-        try:
-            t(s=list(els), spec=spec_text(dict(case, funcs=case['prev'])),
-              absf=absf)
-        except Exception:
-            pass
+    # the same compiled template was used before: with another spec (when
+    # the case has one), on another list, and with the comparison function
+    # name bound to another function
+    try:
+        t(s=list(reversed(els)),
+          spec=spec_text(dict(case, funcs=case['prev'])) if case.get('prev')
+          else spec_text(case), absf=lambda a, b: -absf(a, b))
+    except Exception:
+        pass
     out = t(s=els, spec=spec_text(case), absf=absf)
     order = [int(x) for x in out.split(',')[:-1]]
     mutated = (els != orig or len(els) != len(orig) or
@@ -280,7 +289,8 @@ def check_item(case):
         els = list(vals)
         body = '<dtml-var sequence-item>,'
     orig = list(els)
-    src = '<dtml-in s %s%s>%s</dtml-in>' % (
+    src = '<dtml-in %s %s%s>%s</dtml-in>' % (
+        {'expr': '"s"', 'expr=': 'expr="s"'}.get(case.get('seq'), 's'),
         'sort' if how == 'empty' else 'sort=sequence-item',
         ' reverse' if rev else '', body)
     try:
@@ -328,6 +338,8 @@ def strategy():
             mapping=st.booleans(),
             prev=st.just([list(f) for f in prev] if prev else None),
             via=st.sampled_from(['sort', 'sort', 'sort_expr']),
+            seq=st.sampled_from(['name', 'name', 'expr', 'expr=']),
+            samekey=st.booleans(),
             reverse=st.sampled_from(['none', 'none', 'flag', 'expr-true',
                                      'expr-false']),
             batch=st.one_of(st.none(), st.none(), st.tuples(
@@ -355,15 +367,26 @@ def strategy():
         how=st.sampled_from(['empty', 'sequence-item']),
         rev=st.booleans(),
         pairval=st.sampled_from(['str', 'desc', 'object']),
+        seq=st.sampled_from(['name', 'expr', 'expr=']),
         vals=st.just(None))).flatmap(lambda c: st.lists(
             st.integers(-3, 3) if c['kind'] != 'str'
             else st.sampled_from(['a', 'b', 'B', 'aa', '']),
             max_size=8).map(lambda v: dict(c, vals=v, kind=(
                 'pair' if c['kind'] == 'pair' else c['kind']))))
-    return st.one_of(keyed_cases, keyed_cases, keyed_cases, item)
+    revonly = st.fixed_dictionaries(dict(
+        kind=st.just('revonly'),
+        vals=st.lists(st.integers(0, 9), max_size=7),
+        container=st.sampled_from(['list', 'list', 'tuple']),
+        seq=st.sampled_from(['name', 'expr', 'expr=', 'attr']),
+        how=st.sampled_from(['flag', 'expr', 'expr-var']),
+        batch=st.one_of(st.none(), st.tuples(st.integers(1, 4),
+                                             st.integers(1, 4)))))
+    return st.one_of(keyed_cases, keyed_cases, keyed_cases, item, revonly)
 
 
 def nontrivial(case):
+    if case['kind'] == 'revonly':
+        return len(case['vals']) >= 2
     if case['kind'] != 'keyed':
         v = case['vals']
         return len(v) >= 3 and len(set(v)) < len(v) and \
@@ -376,14 +399,60 @@ def nontrivial(case):
     return len(ks) >= 3 and len(set(ks)) < len(ks) and inv
 
 
+def check_reverse_only(case):
+    """reverse (without any sort) shows the exact reverse of the sequence;
+    the caller's sequence is left as it was, whichever way it is handed to
+    the tag, and a second rendering shows the same."""
+    from DocumentTemplate import HTML
+    vals = list(case['vals'])
+    els = vals if case['container'] == 'list' else tuple(vals)
+    orig = list(els)
+    seq = {'expr': '"s"', 'expr=': 'expr="s"', 'attr': '"h.rows"'}.get(
+        case['seq'], 's')
+    rev = {'flag': 'reverse', 'expr': 'reverse_expr="1"',
+           'expr-var': 'reverse_expr="rv"'}[case['how']]
+    b = case.get('batch')
+    src = '<dtml-in %s %s%s><dtml-var sequence-item>,</dtml-in>' % (
+        seq, rev, ' size=%d start=%d orphan=0' % tuple(b) if b else '')
+    t = HTML(src)
+
+    class H:
+        rows = els
+    outs = []
+    for _ in (1, 2):
+        try:
+            outs.append(t(s=els, h=H(), rv=1))
+        except Exception as e:
+            return 'reverse-only:exception:%s' % type(e).__name__, \
+                '%s on %r: %r' % (src, orig, e)
+        if list(els) != orig:
+            return 'input-mutated', '%s turned the caller\'s %r into %r' % (
+                src, orig, list(els))
+    shown = orig[::-1]
+    if b:
+        shown = shown[b[1] - 1:b[1] - 1 + b[0]] if b[1] <= len(shown) \
+            else None
+    if shown is not None:
+        exp = ''.join('%s,' % v for v in shown)
+        if outs[0] != exp:
+            return 'reverse-only:order', '%s on %r rendered %r' % (
+                src, orig, outs[0])
+    if outs[0] != outs[1]:
+        return 'reverse-only:second-render-differs', '%s on %r: %r then ' \
+            '%r' % (src, orig, outs[0], outs[1])
+    return None
+
+
 def run_case(case):
     if case['kind'] == 'keyed':
         return check(case)
+    if case['kind'] == 'revonly':
+        return check_reverse_only(case)
     return check_item(case)
 
 
 def plan(tier, seed):
-    n = 450 if tier == 'quick' else 9000
+    n = 2000 if tier == 'quick' else 12000
     return [dict(seed=seed * 1000 + i, n=n) for i in range(16)]
 
 
